@@ -6,6 +6,7 @@ import (
 	"html/template"
 	"os"
 	filepathpkg "path/filepath"
+	"sort"
 	"strings"
 
 	"github.com/antlr4-go/antlr/v4"
@@ -137,7 +138,14 @@ func RenderToString(tmpl string, lang string, data interface{}) (string, error) 
 
 // WriteCodeToFile write code to file
 func WriteCodeToFile(path string, codeMap map[string][]byte) error {
-	for name, datas := range codeMap {
+	// in name order: what is on disk after a failure does not depend on the map's iteration order
+	names := make([]string, 0, len(codeMap))
+	for name := range codeMap {
+		names = append(names, name)
+	}
+	sort.Strings(names)
+	for _, name := range names {
+		datas := codeMap[name]
 		filepath := path + "/" + name
 		dir := filepathpkg.Dir(filepath)
 		err := os.MkdirAll(dir, 0755)
